@@ -52,7 +52,16 @@ type rpcSeq struct {
 	extraAbsent bool // views may also treat those keys as absent
 }
 
+// record keeps the harness's own copy of the value (never the object handed to the resolver)
 func (s *rpcSeq) record(key string, val any) {
+	switch x := val.(type) {
+	case *structs.ACLToken:
+		val = cpToken(x)
+	case *structs.ACLRole:
+		val = cpRole(x)
+	case *structs.ACLPolicy:
+		val = cpPolicy(x)
+	}
 	vs := s.hist[key]
 	if len(vs) == 0 {
 		vs = append(vs, &version{val: nil, fromClock: 0, toClock: -1, fromM: 0, toM: -1})
@@ -116,9 +125,15 @@ func (s *rpcSeq) views(secret string, names []string, strict bool) (answers map[
 		eff = "anonymous"
 	}
 	evalView := func(tok *structs.ACLToken, roles map[string]*structs.ACLRole, pols map[string]*structs.ACLPolicy) {
-		b := &backend{dc: s.dc, tokens: map[string]*structs.ACLToken{}, policies: pols, roles: roles}
+		b := &backend{dc: s.dc, tokens: map[string]*structs.ACLToken{}, policies: map[string]*structs.ACLPolicy{}, roles: map[string]*structs.ACLRole{}}
 		if tok != nil {
-			b.tokens[eff] = tok
+			b.tokens[eff] = cpToken(tok)
+		}
+		for k, v := range pols {
+			b.policies[k] = cpPolicy(v)
+		}
+		for k, v := range roles {
+			b.roles[k] = cpRole(v)
 		}
 		res, err := newResolver(b, s.dflt, false).ResolveToken(secret)
 		answers[rpcAnswer(res.Authorizer, err, names)] = true
@@ -234,6 +249,7 @@ func (s *rpcSeq) rresolve(secret string) {
 		eff = "anonymous"
 	}
 	s.res.VerifC08Quiesce(eff)
+	s.checkShared()
 	out := rpcAnswer(res.Authorizer, err, names)
 	s.line(op, out)
 	s.run.Case(strings.Join(s.ops, "\n"), strings.HasPrefix(out, "c="))
@@ -313,13 +329,23 @@ func runRpcSeq(run *hx.Run, r *hx.RNG) {
 	if r.Chance(15) {
 		ttl = [3]int{-1, -1, -1}
 	}
-	s := newRpcSeq(run, r, hx.Pick(r, []byte{'a', 'd'}), downPol, ttl)
+	s := newRpcSeq(run, r, hx.Pick(r, []byte{'a', 'd'}), downPol, ttl, hx.Pick(r, []string{"dc1", "dc1", "dc2"}))
+	s.narrow = r.Chance(35)
+	s.b.cloneOut = r.Chance(60)
+	if s.narrow {
+		run.Tag("rpc:gen:narrow(shared roles)")
+	}
+	if s.b.cloneOut {
+		run.Tag("rpc:replies:deep-copies")
+	} else {
+		run.Tag("rpc:replies:shared-objects")
+	}
 	s.script(r)
 }
 
-func newRpcSeq(run *hx.Run, r *hx.RNG, dflt byte, downPol string, ttl [3]int) *rpcSeq {
-	base := &seq{run: run, r: r, kind: "rpc", dflt: dflt, dc: "dc1",
-		docs: map[string]policy{}, modIdx: map[string]uint64{}}
+func newRpcSeq(run *hx.Run, r *hx.RNG, dflt byte, downPol string, ttl [3]int, dc string) *rpcSeq {
+	base := &seq{run: run, r: r, kind: "rpc", dflt: dflt, dc: dc,
+		docs: map[string]policy{}, modIdx: map[string]uint64{}, pr: newPristine()}
 	s := &rpcSeq{seq: base, hist: map[string][]*version{}, lastBad: -1}
 	s.b = &backend{dc: s.dc, client: true, tokens: map[string]*structs.ACLToken{}, policies: map[string]*structs.ACLPolicy{}, roles: map[string]*structs.ACLRole{}}
 	s.downPol = downPol
@@ -368,7 +394,11 @@ func (s *rpcSeq) script(r *hx.RNG) {
 	for _, id := range polIDs[:2+r.Intn(3)] {
 		s.rpcPutPolicy(id, o)
 	}
-	for _, id := range roleIDs[:r.Intn(3)] {
+	nro := r.Intn(4)
+	if s.narrow {
+		nro = 2 + r.Intn(2)
+	}
+	for _, id := range roleIDs[:nro] {
 		s.putRole(id)
 		s.record("r:"+id, s.b.roles[id])
 		s.moment++
@@ -405,8 +435,7 @@ func (s *rpcSeq) script(r *hx.RNG) {
 			run.Tag("rpc:step:policy-update")
 		case c < 80:
 			id := hx.Pick(r, polIDs)
-			delete(s.b.policies, id)
-			delete(s.docs, id)
+			s.delPolicy(id)
 			s.line("delpol "+hx.EncS(id), "ok")
 			s.record("p:"+id, nil)
 			s.moment++
@@ -414,7 +443,7 @@ func (s *rpcSeq) script(r *hx.RNG) {
 		case c < 86:
 			sec := hx.Pick(r, secrets)
 			if r.Chance(25) {
-				delete(s.b.tokens, sec)
+				s.delToken(sec)
 				s.line("deltok "+hx.EncS(sec), "ok")
 				s.record("t:"+sec, nil)
 			} else {
@@ -426,7 +455,7 @@ func (s *rpcSeq) script(r *hx.RNG) {
 		case c < 92:
 			id := hx.Pick(r, roleIDs)
 			if r.Chance(25) {
-				delete(s.b.roles, id)
+				s.delRole(id)
 				s.line("delrole "+hx.EncS(id), "ok")
 				s.record("r:"+id, nil)
 			} else {
@@ -453,18 +482,18 @@ func (s *rpcSeq) script(r *hx.RNG) {
 // resolved again within the policy TTL.
 func outageWitness(run *hx.Run) {
 	for _, dp := range []string{"deny", "allow", "extend-cache"} {
-		s := newRpcSeq(run, run.RNG.Fork(0x0A7), 'a', dp, [3]int{5, 1, 1})
+		s := newRpcSeq(run, run.RNG.Fork(0x0A7), 'a', dp, [3]int{5, 1, 1}, "dc1")
 		p := policy{rules: []rule{{kind: 's', pfx: true, name: "", pol: "deny"}}}
 		doc := &structs.ACLPolicy{ID: polIDs[0], Name: "p-0", Rules: render(p, 0)}
 		doc.ModifyIndex = 1
 		doc.SetHash(true)
-		s.b.policies[polIDs[0]] = doc
+		s.setPolicy(polIDs[0], doc)
 		s.docs[polIDs[0]] = p
 		s.line(fmt.Sprintf("pol %s 1 %d - %s", hx.EncS(polIDs[0]), contentTag(doc), encPolicy(p)), "ok")
 		s.record("p:"+polIDs[0], doc)
 		s.moment++
 		t := &structs.ACLToken{AccessorID: "acc-out", SecretID: secrets[0], Policies: []structs.ACLTokenPolicyLink{{ID: polIDs[0]}}}
-		s.b.tokens[secrets[0]] = t
+		s.setToken(secrets[0], t)
 		s.line(fmt.Sprintf("tok %s %s - - -", hx.EncS(secrets[0]), hx.EncS(polIDs[0])), "ok")
 		s.record("t:"+secrets[0], t)
 		s.moment++
